@@ -43,49 +43,57 @@ class _Transpose(Sigma):
       "transposition; the four branch-extraction blocks map onto each other (north->west, south->east under "
       "transposition; north->south under reflection of the row index)", floor=4)
 def r1(ctx: Ctx) -> None:
-    f, body, fors = _init_blocks(ctx)
-    ctx.require(len(fors) >= 6, f"StropInstance.__init__: expected 2 histogram loops and 4 extraction loops, found {len(fors)}")
-    cn = Canon(f, ctx.model)
-    pre = [st for st in body if st.lineno < fors[0].lineno]
-    cn.block(pre)
-    blocks = {}
-    # statements between/after loops belong to the extraction blocks: slice the body by the for loops
-    idxs = [body.index(x) for x in fors]
-    hist_ns, hist_we = [fors[0]], [fors[1]]
-    # extraction blocks: [init assign, for, trailing if]
-    ext = []
-    for k in range(2, 6):
-        i = idxs[k]
-        ext.append(body[i - 1:i + 2])
-    m_var = None
-    for st in pre:
-        if isinstance(st, ast.Assign) and isinstance(st.targets[0], ast.Name) and isinstance(st.value, ast.Attribute) and st.value.attr == "matrix":
-            m_var = cn.expr(st.targets[0])
-    ctx.require(m_var is not None, "StropInstance.__init__: matrix alias not found")
-    sg = _Transpose({m_var})
+    f = ctx.func(STROP, "StropInstance.__init__")
+    # decided on the normal form of the whole constructor: how the blocks are cut into helpers, generators and locals plays no role
+    c = canon_function(f, ctx.model)
 
-    def canon_region(stmts):
-        c2 = Canon(f, ctx.model)
-        c2.block(pre)
-        return c2.block(stmts)
-    a, b = canon_region(hist_ns), canon_region(hist_we)
+    def flat(stmts):           # the main line, entering the arm of 'if self.valid():'
+        out = []
+        for st in stmts:
+            if st[0] == "if" and len(st) == 4 and not st[3] and contains(st[1], "valid") and any(x[0] == "for" for x in st[2]):
+                out += flat(st[2])
+            else:
+                out.append(st)
+        return out
+    line = flat(c)
+    fors = [i for i, st in enumerate(line) if st[0] == "for"]
+    ctx.require(len(fors) >= 6, f"StropInstance.__init__: expected 2 histogram loops and 4 extraction loops, found {len(fors)}")
+    hist_a, hist_b = (line[fors[0]],), (line[fors[1]],)
+    # extraction regions: the statements from the end of the previous region to the loop, and the conditionals that follow it
+    ext, start = [], fors[1] + 1
+    for k in range(2, 6):
+        i = fors[k]
+        first = i
+        while first - 1 >= start and line[first - 1][0] == "set" and isinstance(line[first - 1][1], tuple) and line[first - 1][1][:1] == ("v",):
+            first -= 1
+        j = i + 1
+        while j < len(line) and line[j][0] == "if":
+            j += 1
+        ext.append(tuple(line[first:j]))
+        start = j
+    matrix_vars = set(atoms_of(c, lambda x: x[0] == "a" and len(x) == 3 and x[2] == "matrix"))
+    for v_, d_ in single_defs(c).items():
+        if isinstance(d_, tuple) and d_[:1] == ("a",) and len(d_) == 3 and d_[2] == "matrix":
+            matrix_vars.add(v_)
+    ctx.require(bool(matrix_vars), "StropInstance.__init__: the cell matrix is not read")
+    sg = _Transpose(matrix_vars)
+    a, b = hist_a, hist_b
     ctx.site(f.where, "N/S histogram block == transpose(W/E histogram block)", statements=len(a))
     ia = _alpha(list(sg.apply(a)))
     ib = _alpha(list(b))
     if ia != ib:
         d = diff_paths(tuple(ia), tuple(ib))
         ctx.report(f.where, f"mirror[histograms] {d[0][:200] if d else ''}", "the north/south and west/east histogram loops are not mirror images under transposition",
-                   lineno=fors[1].lineno, differences=d)
+                   differences=d)
     names = ["north", "south", "west", "east"]
-    ce = {n: canon_region(e) for n, e in zip(names, ext)}
+    ce = dict(zip(names, ext))
     for src, dst in [("north", "west"), ("south", "east")]:
         ctx.site(f.where, f"{src} extraction == transpose({dst} extraction)")
         ia = _alpha(list(sg.apply(ce[src])))
         ib = _alpha(list(ce[dst]))
         if ia != ib:
             d = diff_paths(tuple(ia), tuple(ib))
-            ctx.report(f.where, f"mirror[{src}->{dst}] {d[0][:200] if d else ''}", f"the {src} and {dst} branch extraction blocks are not mirror images under transposition",
-                       lineno=ext[names.index(dst)][0].lineno, differences=d)
+            ctx.report(f.where, f"mirror[{src}->{dst}] {d[0][:200] if d else ''}", f"the {src} and {dst} branch extraction blocks are not mirror images under transposition", differences=d)
     # reflection of the index along the axis: i -> -i maps [low - v, low - 1] onto [high' + 1, high' + v]
 
     class _Reflect(Sigma):
@@ -114,7 +122,7 @@ def r1(ctx: Ctx) -> None:
         if ia != ib:
             d = diff_paths(tuple(ia), tuple(ib))
             ctx.report(f.where, f"mirror[{src}->{dst}] {d[0][:200] if d else ''}", f"the {src} and {dst} branch extraction blocks are not reflections of each other "
-                       f"(rows [low - v, low - 1] <-> [high + 1, high + v])", lineno=ext[names.index(dst)][0].lineno, differences=d)
+                       f"(rows [low - v, low - 1] <-> [high + 1, high + v])", differences=d)
 
 
 @rule("C15", "R2.trunk-search", "CLOSED/TUPLE",
@@ -416,17 +424,46 @@ def r8_cells(ctx: Ctx) -> None:
         return t[0] == "c" and t[1] == ("g", "is_point_inside_polygon") and len(t[2]) == 2 and t[2][1] == ("p", 0) \
             and t[2][0][0] == "c" and t[2][0][1] == ("g", "Point")
     marks = []
-    # the two spellings: a conditional that adds '1' or '0', or one addition of ('1' if inside else '0')
-    for st in atoms_of(c, lambda x: x[0] == "if" and len(x) == 4):
-        adds_one = [y for y in st[2] if y[0] == "aug" and y[1] == "Add" and y[3] == one]
-        adds_zero = [y for y in st[3] if y[0] == "aug" and y[1] == "Add" and y[3] == zero]
-        if adds_one or adds_zero:
-            marks.append(is_inside_test(st[1]) and len(adds_one) == 1 and len(adds_zero) == 1 and len(st[2]) == 1 and len(st[3]) == 1)
-    for st in atoms_of(c, lambda x: x[0] == "aug" and len(x) == 4 and x[1] == "Add" and x[3][0] == "ite"):
-        if {st[3][2], st[3][3]} == {one, zero}:
-            marks.append(is_inside_test(st[3][1]) and st[3][2] == one)
-    # ... and it happens once per cell: inside two nested loops
-    nested = [lp for lp in atoms_of(c, lambda x: x[0] == "for" and len(x) == 5) if atoms_of(lp[3], lambda x: x[0] == "for" and len(x) == 5 and contains(x[3], ("g", "is_point_inside_polygon")))]
+    depths = []
+    seen: set = set()
+    # the spellings: a conditional that adds '1' or '0', one addition of ('1' if inside else '0'), or that conditional value as the
+    # element of the comprehensions whose pieces are joined; 'depth' counts the loops and comprehension clauses around the mark
+
+    def walk(x, depth):
+        if not isinstance(x, tuple) or not x:
+            return
+        if x[0] == "for" and len(x) == 5:
+            walk(x[2], depth)
+            for y in x[3]:
+                walk(y, depth + 1)
+            for y in x[4]:
+                walk(y, depth)
+            return
+        if x[0] == "comp" and len(x) == 4:
+            for k, cl in enumerate(x[3]):
+                walk(cl[1], depth + k)
+                walk(cl[2], depth + k + 1)
+            for y in x[2]:
+                walk(y, depth + len(x[3]))
+            return
+        if x[0] == "if" and len(x) == 4:
+            adds_one = [y for y in x[2] if y[0] == "aug" and y[1] == "Add" and y[3] == one]
+            adds_zero = [y for y in x[3] if y[0] == "aug" and y[1] == "Add" and y[3] == zero]
+            if adds_one or adds_zero:
+                if x not in seen:
+                    seen.add(x)
+                    marks.append(is_inside_test(x[1]) and len(adds_one) == 1 and len(adds_zero) == 1 and len(x[2]) == 1 and len(x[3]) == 1)
+                    depths.append(depth)
+        if x[0] == "ite" and len(x) == 4 and {x[2], x[3]} == {one, zero}:
+            if x not in seen:          # a looked-through local shows the same mark at each of its reads
+                seen.add(x)
+                marks.append(is_inside_test(x[1]) and x[2] == one)
+                depths.append(depth)
+        for y in x:
+            walk(y, depth)
+    for st in c:
+        walk(st, 0)
+    nested = [d for d in depths if d >= 2]
     ctx.site(f.where, "'1' is appended exactly when is_point_inside_polygon(cell centre, vertices) holds, once per cell of the grid", marks=len(marks), nested_loops=len(nested))
     if marks != [True] or not nested:
         ctx.report(f.where, "cell-membership", "a cell of the grid is not marked occupied exactly when its centre passes the even-odd inside test against the given "
